@@ -26,7 +26,6 @@ def run(ctx):
     # with a drain on attach the model satisfies FilteredOnly
     ctx.tlc_mc("AfpacketSource", "MC_Afpacket_asfound", workers=2, timeout=300, expect_violation="FilteredOnly")
     ctx.tlc_mc("AfpacketSource", "MC_Afpacket_drain", workers=2, timeout=300)
-    ctx.tlc_mc("MC_ScanRun", "MC_ScanRun", workers=8, timeout=900)
     ctx.tlc_mc("MC_ScanRun", "MC_ScanRun_attachWindow", workers=2, timeout=300, expect_violation="NoForeign")
     binary = ctx.go_build_test("./command")
     trace = os.path.join(ctx.scratch, "c03-trace.ndjson")
